@@ -640,7 +640,11 @@ func (k *Key) UnmarshalCBOR(data []byte) error {
 			case int64:
 				if (k.Type == KeyTypeEC2 || k.Type == KeyTypeOKP) &&
 					(lbl == KeyLabelEC2Curve || lbl == KeyLabelOKPCurve) {
-					v = Curve(v.(int64))
+					crv, ok := v.(int64)
+					if !ok {
+						return fmt.Errorf("crv: invalid type: expected int64, got %T", v)
+					}
+					v = Curve(crv)
 				}
 				k.Params[lbl] = v
 			case string:
